@@ -87,6 +87,18 @@ def run_case(ctx, rep, spec, variables, limit, model, path=None, P=None, start=N
         rep.agree()
     else:
         rep.tie("colander's output layout (file, offset per box) differs from the model's", case)
+    mn = leanio.driver([{"op": "names", "tool": "colander", "names": list(names),
+                         "vars": None if variables == ["all"] else list(variables)}])[0]
+    if mn.get("fields") == Q["fields"] and mn.get("indices") == kept:
+        rep.agree()
+    else:
+        rep.tie("the fields colander wrote (names / positions) differ from the Lean selection rule", case,
+                {"real": Q["fields"], "model": mn})
+    cert = tastelib.wf_certificate(out, leanio)
+    if cert is None:
+        rep.agree(); rep.count("wf-certificate-passes")
+    elif cert != "names":
+        rep.tie(f"colander's output does not pass the Lean well-formedness certificate ({cert})", case)
     why = writers.global_header_theorem_applies(out, leanio)
     if why:
         rep.tie(f"global header of colander's output: {why} (whose parse-after-render law is proved)", case)
